@@ -494,6 +494,8 @@ REUSE_CFG = {
     "calm": {"rate": 1e-2, "decay": 0.1, "max_fails": 1, "max_iters": 3, "epoch_iters": 2, "maxiter": 3},
     "failing": {"rate": 10.0, "decay": 0.1, "max_fails": 2, "max_iters": 3, "epoch_iters": 1, "maxiter": 1},
     "long": {"rate": 1e-1, "decay": 0.5, "max_fails": 0, "max_iters": 4, "epoch_iters": 3, "maxiter": 6},
+    # LBFGSB only: run to convergence, so that the (size dependent) default tolerances decide where it stops
+    "converge": {"rate": 1e-2, "decay": 0.1, "max_fails": 1, "max_iters": 3, "epoch_iters": 2, "maxiter": 200},
 }
 
 
@@ -505,7 +507,7 @@ def _reuse_cases(tier, seed):
     for L in (1, 2, 3):
         for word in itertools.product(alphabet, repeat=L):
             for opt in ("SGD", "Adam", "Adagrad", "LBFGSB", "LBFGSB_cb"):
-                for cfg in cfgs:
+                for cfg in cfgs + (["converge"] if (opt.startswith("LBFGSB") and L <= 2) else []):
                     modes = ["full"] if opt.startswith("LBFGSB") else ["full", "seeded"]
                     for mode in modes:
                         out.append({"check": "reuse", "opt": opt, "cfg": cfg, "mode": mode, "word": list(word),
